@@ -166,7 +166,8 @@ CHECKS = {
         text="No lossy numeric `as` cast in the serialization module (MIR cast scan); sibling table: every sized-integer entry "
              "point deserialize_T uses TryInto<T>, propagates the error and calls visit_T for both integer variants, everything "
              "else forwards to deserialize_any whose variant table is the identity; deserialize_tuple rejects a length mismatch "
-             "first. One known finding (Enum -> todo!()).",
+             "first; undeclared (skipped) values are not decoded - deserialize_ignored_any does not reach a panicking arm of "
+             "deserialize_any. One known finding (Enum -> todo!()).",
         note="trusted: serde visitors, std TryFrom",
         technique="static analysis: MIR cast scan + sibling dispatch-table agreement over typed HIR",
         design_ref="DESIGN.md section 4 C18"),
@@ -266,7 +267,8 @@ CHECKS = {
              "default or null values, otherwise the matching errors; expand_recursive_edge is abstractly evaluated for depth 1..5 x "
              "implicit coercion x destination coercion with the context iterator abstracted to the type of its active vertices: "
              "the type named at every resolve_neighbors / resolve_coercion equals that typestate (coerce_to only after a "
-             "suspending re-coercion before that very expansion).",
+             "suspending re-coercion before that very expansion); decision table of get_recurse_implicit_coercion over one schema "
+             "per documented case x recursion depth (the decision does not depend on the depth from depth 2 on).",
         note="trusted: well-formed IR (C11); Type / collection models; uniformity of the recursion loop beyond depth 5",
         technique="static analysis: same-origin provenance of call arguments + abstract evaluation of edge-parameter construction",
         design_ref="DESIGN.md section 4 C21"),
@@ -290,7 +292,8 @@ CHECKS = {
              "contexts have no active vertex and a distinct order tag from the loop variable; the items the checkers skip are "
              "inventoried (one known finding: edges with a parameter that has no default) and a null default counts as a default; "
              "the property checker's probe query reaches every vertex type (the `property` edge is folded or optional, so a type "
-             "without properties does not hide the others) and adds __typename for each. "
+             "without properties does not hide the others) and adds __typename for each; the rows of each introspection query reach "
+             "the probing loop through count-preserving steps only (no filter / take / dedup / collect into a map or set). "
              "Not decided: that each assertion is strong enough for every adapter.",
         note="trusted: assert macros' expansion as seen in HIR; edges with required parameters are skipped by the checker itself",
         technique="static analysis: sibling-agreement of assertion obligations over typed HIR",
@@ -317,7 +320,7 @@ CHECKS = {
         category="other",
         text="Narrow: the value conversions and the shim wiring of the Python bindings. Complete decision table of "
              "<FieldValue as FromPyObject>::extract by abstract evaluation over one Python object per class the conversions can "
-             "distinguish (None, bools, integers at every 64-bit boundary, floats: finite, +-0, subnormal, nan, +-inf; str, unsupported objects, "
+             "distinguish (None, bools, integers at every 64-bit boundary, floats: finite, +-0, subnormal, nan, +-inf; str, str with a lone surrogate, unsupported objects, "
              "lists incl. nested, with nulls, mixed and failing elements) against the faithful conversion; table of into_pyobject "
              "and the round trip; both From conversions with trustfall_core's FieldValue are identities (lists elementwise); "
              "arguments and rows are converted entry by entry with errors propagated as Python exceptions; every AdapterShim "
